@@ -41,7 +41,7 @@ type Case struct {
 
 // independent rule edits that land in different places of a document
 var independent = []string{"dupOperationID", "pathParamNotInTemplate", "dupParamInline", "twoBodyParams", "bodyAndForm", "headerArrayNoItems", "schemaArrayNoItems",
-	"requiredUndefined", "requiredUndefined", "dupInheritedProperty", "invalidPatternParam", "invalidPatternHeader", "invalidPatternSchema", "invalidPatternItems", "emptyPlaceholder", "overlappingPaths",
+	"requiredUndefined", "requiredUndefined", "dupInheritedProperty", "invalidPatternParam", "invalidPatternHeader", "invalidPatternSchema", "invalidPatternItems", "emptyPlaceholder", "overlappingPaths", "overlappingPaths3", "overlappingPaths3",
 	"placeholderRepeatedApart", "circularAncestry", "unresolvableDefinitionRef"}
 
 func genCase(t *rapid.T) Case {
